@@ -13,9 +13,9 @@ def run(ctx):
     meta = ctx.drive(out, shards=16)
     traces = vlib.glob_traces(out)
     bad, st = ctx.accept(ACC, ACC_CFG, traces)
-    if st.get("segs", 0) != meta["segments"] or st.get("rets", 0) != meta["segments"]:
+    if st.get("segs", 0) != meta["segments"] or (not bad and st.get("rets", 0) != meta["segments"]):
         raise vlib.Infra("acceptor saw %s segments / %s returns, driver wrote %s" % (st.get("segs"), st.get("rets"), meta["segments"]))
-    if st.get("plans", 0) != meta["plans"]:
+    if not bad and st.get("plans", 0) != meta["plans"]:
         raise vlib.Infra("required fault plans %s, distinct plans validated %s" % (meta["plans"], st.get("plans")))
     vlib.add_bad_segments(ctx, traces, bad)
     ctx.cov.update(
